@@ -43,7 +43,7 @@ def _pairs(tier, seed):
 
 def cases(tier, seed):
     q = tier == "quick"
-    per = {"generic": 40, "systematic": 20, "ldpc": 40, "cyclic": 6, "hamming": 4, "bch": 1, "rm": 1, "golay": 1, "*": 4}
+    per = {"generic": 40, "systematic": 20, "ldpc": 40, "cyclic": 6, "hamming": 4, "bch": 1, "rm": 3, "golay": 1, "*": 4}
     cur_f, cur, idx = None, [], 0
     for spec in _pairs(tier, seed):
         lim = per.get(spec[0], per["*"])
@@ -57,6 +57,8 @@ def cases(tier, seed):
         cur.append(spec)
     if cur:
         yield f"C02|{cur_f}|{idx:04d}|{cur[0][1]}..", {"specs": cur, "tier": tier}
+    for i, seq in enumerate(C.mixing_sequences()):
+        yield f"C02|mixing|{i:02d}|{seq[0][0]}", {"specs": seq, "tier": tier}
 
 
 def component_of(p):
